@@ -36,6 +36,8 @@ class PluginRef(MetadataSchema):
     """Version of the Python package."""
 
     def __eq__(self, other):
+        if not isinstance(other, PluginRef):
+            return NotImplemented  # (e.g. compared with a str or None)
         return (
             self.group == other.group
             and self.name == other.name
